@@ -187,6 +187,16 @@ CHECKS = {
             'Trusts TLC and the interposition. Templates have >= 1 added atom; -modify pre-labelled atoms are not generated; '
             'known finding D17 (AssertionError for two differently-anchored groups on one residue) is reported as KNOWN-FINDING.',
             'DESIGN.md section 5 / C14'),
+    'C11': ('exploration',
+            'TLA+ relation PipelineEq (equal particle lists, interactions equal as bags with numeric parameters within the last '
+            'printed digit, coordinates related by the rigid motion) evaluated by TLC on pairs of real bin/martinize2 runs '
+            '(base presentation vs atoms permuted within residues / hydrogens renamed / lattice rotation + translation / other '
+            'PYTHONHASHSEED), outputs parsed by independent readers',
+            'Sampling of presentations across inputs and option sets; every pair is decided by TLC from the files both runs '
+            'wrote. Exploration, not enumeration: a hyperproperty of the whole pipeline.',
+            'Trusts TLC, the independent ITP/PDB readers, and that lattice rotations are exact on the 0.001 A PDB grid. DSSP '
+            'executable path not exercised.',
+            'DESIGN.md section 5 / C11'),
 }
 
 PENDING = {}
